@@ -131,6 +131,7 @@ func (z *Interpreter) LoadFile(file string) *Interpreter {
 }
 
 func (z *Interpreter) Execute(varInputs r.ElementMap) (r.Element, error) {
+	verifYield("execute")
 	// #1. get the main source
 	if z.moduleCodeFinder == nil {
 		return nil, fmt.Errorf("code script/file not loaded")
